@@ -37,6 +37,7 @@ CONDITIONS = {
     "tuple_vs_non_space": "Tuple.eq_iff_same@vs_non_space",
     "dict_eq": "Dict.eq_iff_same",
     "dict_hash": "Dict.hash_consistent",
+    "dict_eq_implies_hash": "Dict.hash_consistent@any_key_order",
     "dict_vs_non_space": "Dict.eq_iff_same@vs_non_space",
     "nested_tuple_of_dict": "Tuple[Dict].eq_iff_same",
     "nested_dict_of_tuple": "Dict[Tuple].eq_iff_same",
@@ -87,11 +88,24 @@ class Runner:
         self.fn = {n.name: n for n in tree.body if isinstance(n, ast.FunctionDef)}
 
     def start(self, names=None):
-        for name in (names or CONDITIONS):
-            node = self.fn[name]
-            cmd = [self.crosshair, "check", "--report_all", "--per_condition_timeout", str(self.timeout),
-                   "--per_path_timeout", str(max(5, self.timeout // 4)), f"{self.path}:{node.lineno}", "--extra_plugin", PLUGIN]
-            self.procs[name] = (subprocess.Popen(cmd, stdout=subprocess.PIPE, stderr=subprocess.PIPE, text=True, env=_env(), cwd=self.dir), time.time())
+        from concurrent.futures import ThreadPoolExecutor
+        names = list(names or CONDITIONS)
+        self.pool = ThreadPoolExecutor(max_workers=len(names))
+        for name in names:
+            self.procs[name] = self.pool.submit(self._run, name)
+
+    def _run(self, name):
+        node = self.fn[name]
+        cmd = [self.crosshair, "check", "--report_all", "--per_condition_timeout", str(self.timeout),
+               "--per_path_timeout", str(max(5, self.timeout // 4)), f"{self.path}:{node.lineno}", "--extra_plugin", PLUGIN]
+        t0 = time.time()
+        try:
+            p = subprocess.run(cmd, capture_output=True, text=True, env=_env(), cwd=self.dir, timeout=self.timeout * 2 + 120)
+            out, err, rc = p.stdout, p.stderr, p.returncode
+        except subprocess.TimeoutExpired:
+            return "inconclusive", {"reason": "crosshair process did not finish"}, time.time() - t0
+        verdict, info = self._judge(name, out, err, rc)
+        return verdict, info, time.time() - t0
 
     def post_of(self, name):
         doc = ast.get_docstring(self.fn[name]) or ""
@@ -109,16 +123,12 @@ class Runner:
         return (not d["contract_holds"]), d
 
     def collect(self, name):
-        """-> (verdict, info) with verdict in confirmed | counterexample | unreproduced | inconclusive"""
-        proc, t0 = self.procs[name]
-        try:
-            out, err = proc.communicate(timeout=self.timeout * 3 + 120)
-        except subprocess.TimeoutExpired:
-            proc.kill()
-            return "inconclusive", {"reason": "crosshair process did not finish"}, time.time() - t0
-        dt = time.time() - t0
+        """-> (verdict, info, seconds) with verdict in confirmed | counterexample | unreproduced | inconclusive"""
+        return self.procs[name].result()
+
+    def _judge(self, name, out, err, rc):
         lines = [l for l in out.splitlines() if re.match(r".*:\d+: (error|info|warning): ", l)]
-        info = {"crosshair_output": lines[:6], "exit": proc.returncode}
+        info = {"crosshair_output": lines[:6], "exit": rc}
         errors = [l for l in lines if ": error: " in l]
         if errors:
             msg = errors[0].split(": error: ", 1)[1]
@@ -136,16 +146,17 @@ class Runner:
                     info["parse_error"] = repr(ex)
                     kwargs = None
             if kwargs is None:
-                return "inconclusive", info, dt
+                return "inconclusive", info
             info["counterexample"] = kwargs
             rep, rinfo = self.replay(name, kwargs)
             info["replay_on_real_classes"] = rinfo
-            return ("counterexample" if rep else "unreproduced"), info, dt
-        if any("Confirmed over all paths" in l for l in lines) and proc.returncode == 0:
-            return "confirmed", info, dt
+            return ("counterexample" if rep else "unreproduced"), info
+        if any("Confirmed over all paths" in l for l in lines) and rc == 0:
+            return "confirmed", info
         info["stderr"] = err[-600:]
-        return "inconclusive", info, dt
+        return "inconclusive", info
 
     def cleanup(self):
         import shutil
+        self.pool.shutdown(wait=False)
         shutil.rmtree(self.dir, ignore_errors=True)
